@@ -91,7 +91,7 @@ def run (ctx):
   for qual in ('openflow.of_01:Connection.read', 'datapaths.switch:OFConnection.read'):
     f = repo.func(qual); ctx.analysed(f)
     L = framing.find_loop(repo, f)
-    res, np_ = progress.check_loop(repo, f, L.g, L.head, L.after, L.loop[0], env=q.Env(call_hook=hook), cursors=set([L.cur]) if L.cur else set())
+    res, np_ = progress.check_loop(repo, f, L.g, L.head, L.after, L.loop[0], env=q.Env(call_hook=hook), cursors=set([L.cur]) if L.cur else set(), exc=True, limit=600)
     ctx.stat('paths_enumerated', np_)
     if not res: ctx.undecided('R-PROGRESS', f, "framing loop progress", "no loop path enumerated", f, 'D1'); continue
     n_loops += 1
@@ -366,6 +366,14 @@ def run (ctx):
            "`%s` is negative for a declared length below the fixed part, and no return of this decoder is preceded by a test of `length` (its siblings end in `assert length == len(self)`): "
            "a short message is decoded with fields taken from the following message's bytes and still passes the framing loop's consumed == declared test" % norm(sized[0])[:40], (f_.module, sized[0]), 'D4')
   ctx.floor('message decoders with length-derived read sizes', n_sized, 9)
+  # decoders never size a read by the length of the buffer they are handed (it may hold further messages)
+  uses_, nd_ = framing.buffer_length_uses(repo)
+  ctx.floor('codec decoders scanned for buffer-length-sized reads', nd_, 60)
+  for f_, x_, txt_ in uses_:
+    ctx.bad('R-UNITS', f_, "the receive buffer's own length only guards reads, it never sizes one (`%s`)" % txt_[:50],
+            "`%s` derives a read size / cursor from len(<buffer>): the decoder is handed the connection's whole receive buffer, so with a further message behind this one it takes that message's bytes as its own - "
+            "decoding consumes beyond the declared length (and the consumed == declared test then rejects a well-formed stream)" % txt_, (f_.module, x_), 'D4')
+  if not uses_: ctx.ok('R-UNITS', 'openflow.libopenflow_01', "the receive buffer's own length only guards reads, it never sizes one", "%d decoders: len(<buffer>) occurs in comparisons only" % nd_, None, 'D4')
   # ---- D5 bytes in error replies -----------------------------------------------------------------------
   if eh is not None:
     for t, v, st, k in q.stores_in(eh.node):
